@@ -278,10 +278,12 @@ pub struct Model {
     pub strict_resub: bool,
 }
 
+/// (group identity, topic filter) of a subscription. A shared group is one share name on one
+/// topic filter (the same share name with another filter is another group, R14 repaired)
 pub fn split_share(filter: &str) -> (Option<String>, String) {
     if let Some(rest) = filter.strip_prefix("$share/") {
         if let Some((g, p)) = rest.split_once('/') {
-            return (Some(g.to_string()), p.to_string());
+            return (Some(format!("{g}/{p}")), p.to_string());
         }
     }
     (None, filter.to_string())
